@@ -25,11 +25,12 @@ import (
 )
 
 type run struct {
+	imports bool // some coins belong to imported keys
 	*walletsim.Scenario
-	published map[wire.OutPoint]chainhash.Hash // inputs of transactions the wallet published
+	published                    map[wire.OutPoint]chainhash.Hash // inputs of transactions the wallet published
 	nOK, nRefusedExplicit, nFail int
-	clk      *clock.TestClock
-	expiries map[wire.OutPoint]time.Time
+	clk                          *clock.TestClock
+	expiries                     map[wire.OutPoint]time.Time
 }
 
 func (r *run) history(t *rapid.T) {
@@ -170,6 +171,9 @@ func (r *run) request(t *rapid.T, kind string, small bool) {
 		q.Scope = &sc
 	}
 	q.Account = uint32(rapid.IntRange(0, 1).Draw(t, "account"))
+	if r.imports && rapid.IntRange(0, 3).Draw(t, "fromImportedAccount") == 0 {
+		q.Account = waddrmgr.ImportedAddrAccount
+	}
 	q.MinConf = int32(rapid.SampledFrom([]int{0, 0, 1, 1, 2, 3, 99, 100, 101}).Draw(t, "minconf"))
 	rate := btcutil.Amount(rapid.SampledFrom([]int{1000, 1000, 2500, 10_000, 50_000, 500_000}).Draw(t, "feeRate"))
 	var strategy wallet.CoinSelectionStrategy = wallet.CoinSelectionLargest
@@ -243,6 +247,20 @@ func (r *run) request(t *rapid.T, kind string, small bool) {
 	var prevFromWallet map[wire.OutPoint]bool
 	signed := true
 	published := false
+	// The wallet treats the imported-address account as one without private
+	// keys (IsWatchOnlyAccount: "TODO: actually check whether it does"), so what
+	// it creates from that account is a watch-only result: unsigned. Such a
+	// request is therefore never sent (a node would refuse the unsigned
+	// transaction; the model backend does not verify scripts).
+	fromImported := q.Account == waddrmgr.ImportedAddrAccount
+	if fromImported {
+		switch kind {
+		case "send":
+			kind = "create"
+		case "send-with-input":
+			kind = "create-with-utxos"
+		}
+	}
 	switch kind {
 	case "create", "create-with-utxos":
 		dry := rapid.Bool().Draw(t, "dryRun")
@@ -250,7 +268,7 @@ func (r *run) request(t *rapid.T, kind string, small bool) {
 		if len(explicit) > 0 {
 			opts = append(opts, wallet.WithCustomSelectUtxos(explicit))
 		}
-		var atx interface{ }
+		var atx interface{}
 		res, e := s.F.W.CreateSimpleTx(q.Scope, q.Account, outputs, q.MinConf, rate, strategy, dry, opts...)
 		_ = atx
 		err = e
@@ -362,6 +380,9 @@ func (r *run) request(t *rapid.T, kind string, small bool) {
 			s.F.Violation("%s: requested output %d sat to %x is missing from the transaction", kind, o.Value, o.PkScript)
 		}
 	}
+	if fromImported {
+		signed = false
+	}
 	if signed {
 		fetcher := txscript.NewMultiPrevOutFetcher(prevScripts)
 		hashes := txscript.NewTxSigHashes(tx, fetcher)
@@ -421,6 +442,9 @@ func (r *run) request(t *rapid.T, kind string, small bool) {
 	}
 	for sc := range types {
 		s.C.Class("spent-from:" + sc.String())
+	}
+	if q.Account == waddrmgr.ImportedAddrAccount {
+		s.C.Class("spent-from-the-imported-address-account")
 	}
 	r.nOK++
 }
@@ -501,7 +525,22 @@ func TestC06EligibleInputs(t *testing.T) {
 		defer c.End()
 		s := walletsim.NewScenario(t, "C06", c, 5, 1)
 		defer s.F.Close()
-		r := &run{Scenario: s, published: map[wire.OutPoint]chainhash.Hash{}, expiries: map[wire.OutPoint]time.Time{},
+		// in a third of the cases some coins belong to imported keys (the
+		// imported-address account of their scope)
+		if rapid.IntRange(0, 2).Draw(t, "withImportedKeys") == 0 {
+			s.ImportKeys(rapid.IntRange(1, 3).Draw(t, "nImported"))
+		}
+		hasImports := s.C != nil && len(s.Accounts) > 0 && func() bool {
+			for _, as := range s.Accounts {
+				for _, a := range as {
+					if a == waddrmgr.ImportedAddrAccount {
+						return true
+					}
+				}
+			}
+			return false
+		}()
+		r := &run{Scenario: s, imports: hasImports, published: map[wire.OutPoint]chainhash.Hash{}, expiries: map[wire.OutPoint]time.Time{},
 			clk: clock.NewTestClock(time.Unix(1_750_000_000, 0))}
 		s.F.W.TxStore.VerifSetClock(r.clk)
 		r.history(t)
